@@ -56,7 +56,6 @@ ApplyDelta(pre, dl) ==
         ELSE base[i]]
 
 MCfg(m) == MkCfg(m.tf, m.fill, m.life, m.ha)
-RawCopies(cs) == [i \in 1..Len(cs) |-> [Reset(Recover(cs[i])) EXCEPT !.cl = <<>>]]
 RawSlice(T, a, b) == CJSeq(SubSeq(T.raw, a, b))
 
 RECURSIVE SetAsSeq(_)
